@@ -677,6 +677,24 @@ add({"name": "extract_unused_spans", "file": "dfs/cmd_extract_unused.cc",
                (r"(for \(sector_count_type sec = 0; sec <= last_sec; \+\+sec\))", r"\1 SPANS_LOOP_CONTRACT", 1)],
      "dropped": ["the destination directory argument of write_span (see C12)"]})
 
+# ---- cmd_extract_files.cc (C02: the .inf line; C11: its stream is tested after close) -----------------------------------
+add({"name": "create_inf_file", "file": "dfs/cmd_extract_files.cc",
+     "anchor": r"bool create_inf_file\(const string& name,\s*unsigned long crc,\s*const DFS::CatalogEntry& entry\)",
+     "sig": "static bool create_inf_file(unsigned long crc, const struct CatalogEntry *entry)",
+     "pre": "#define inf_file (&os_obj)\n", "post": "#undef inf_file\n",
+     "rules": [(r"DFS::sign_extend\(", "sign_extend(", 2),
+               (r"entry\.load_address\(\)", "CatalogEntry_load_address(entry)", 1), (r"entry\.exec_address\(\)", "CatalogEntry_exec_address(entry)", 1),
+               (r"std::ofstream inf_file\(name, std::ofstream::out\);", "os_init(inf_file); inf_open(inf_file);  /* the ofstream is opened on the given name */", 1),
+               (r"!inf_file\.good\(\)", "inf_file->bad", ">=1"),
+               (r"std::cerr << [^;]*;", "g_diag++;  /* diagnostic text dropped */", ">=0"),
+               (r"using std::setw;", "", 1), (r"using std::setfill;", "", 1),
+               (r"entry\.directory\(\)", "CatalogEntry_directory(entry)", 1), (r"entry\.name\(\)", "CSTR(CatalogEntry_name(entry))", 1),
+               (r"entry\.is_locked\(\)", "CatalogEntry_is_locked(entry)", 1), (r"entry\.file_length\(\)", "CatalogEntry_file_length(entry)", 1),
+               ("OSTREAM_CHAIN", "inf_file", 2),
+               (r"inf_file\.close\(\);", "inf_close(inf_file);", 1),
+               (r"return inf_file\.good\(\);", "return !inf_file->bad;", 1)],
+     "dropped": ["diagnostic text", "the host file name"]})
+
 # ---- cmd_extract_files.cc (C11: a host file being created by extract-files) --------------------------------------------
 add({"name": "extract_files_visitor", "file": "dfs/cmd_extract_files.cc",
      "anchor": r"\[&crc, &outfile, &output_body_file\]\s*\(const DFS::byte\* begin,\s*const DFS::byte\* end\)",
